@@ -26,11 +26,11 @@ leptos_i18n::declare_locales! {
     interpolate_display,
     default: "en",
     locales: ["en", "fr", "fr-CA", "de", "pt-BR"],
-    en: { hello: "hello@0", sub: { inner: "inner@0", deep: { leaf: "leaf@0" } } },
-    fr: { hello: "hello@1", sub: { inner: "inner@1", deep: { leaf: "leaf@1" } } },
-    fr_CA: { hello: "hello@2", sub: { inner: "inner@2", deep: { leaf: "leaf@2" } } },
-    de: { hello: "hello@3", sub: { inner: "inner@3", deep: { leaf: "leaf@3" } } },
-    pt_BR: { hello: "hello@4", sub: { inner: "inner@4", deep: { leaf: "leaf@4" } } },
+    en: { hello: "hello@0", hello_n: "hello {{ n }}@0", sub: { inner: "inner@0", inner_n: "inner {{ n }}@0", deep: { leaf: "leaf@0", leaf_n: "leaf {{ n }}@0" } } },
+    fr: { hello: "hello@1", hello_n: "hello {{ n }}@1", sub: { inner: "inner@1", inner_n: "inner {{ n }}@1", deep: { leaf: "leaf@1", leaf_n: "leaf {{ n }}@1" } } },
+    fr_CA: { hello: "hello@2", hello_n: "hello {{ n }}@2", sub: { inner: "inner@2", inner_n: "inner {{ n }}@2", deep: { leaf: "leaf@2", leaf_n: "leaf {{ n }}@2" } } },
+    de: { hello: "hello@3", hello_n: "hello {{ n }}@3", sub: { inner: "inner@3", inner_n: "inner {{ n }}@3", deep: { leaf: "leaf@3", leaf_n: "leaf {{ n }}@3" } } },
+    pt_BR: { hello: "hello@4", hello_n: "hello {{ n }}@4", sub: { inner: "inner@4", inner_n: "inner {{ n }}@4", deep: { leaf: "leaf@4", leaf_n: "leaf {{ n }}@4" } } },
 }
 use i18n::*;
 
@@ -193,6 +193,20 @@ async fn run15_sub(f: &[&str], owner: &Owner) -> String {
 
 // ------------------------------------------------------------------ C16
 
+type Render = Box<dyn Fn() -> String>;
+
+struct Holder<T> {
+    i18n: T,
+}
+impl<T: Copy> Holder<T> {
+    fn get(&self) -> T {
+        self.i18n
+    }
+}
+fn idf<T>(x: T) -> T {
+    x
+}
+
 struct Handle {
     ctx: usize,
     get: Box<dyn Fn() -> Locale>,
@@ -200,12 +214,111 @@ struct Handle {
     set: Box<dyn Fn(Locale)>,
     set_untracked: Box<dyn Fn(Locale)>,
     scope: Box<dyn Fn(usize) -> Option<Handle>>,
-    /// creates the reactive accessors of this handle: (`t!` view closure rendered to html, `t_string!` re-evaluated)
-    accessor: Box<dyn Fn() -> (Box<dyn Fn() -> String>, Box<dyn Fn() -> String>)>,
+    /// creates one accessor of this handle, flavour = (macro, kind of the first macro argument, with interpolation arguments);
+    /// the result renders it (a `t!`-like view closure is created once here and called + rendered to html on every render,
+    /// a `t_string!`/`t_display!`-like call is re-evaluated on every render)
+    accessor: Box<dyn Fn(usize, usize, usize) -> Option<Render>>,
+}
+
+/// view flavours: the closure the macro returns is created now, called at every rendering;
+/// string/display flavours: the macro call is evaluated at every rendering
+macro_rules! wrap {
+    (view, $call:expr) => {{
+        let v = $call;
+        Some(Box::new(move || v().to_html()) as Render)
+    }};
+    (string, $call:expr) => {
+        Some(Box::new(move || $call.to_string()) as Render)
+    };
+}
+
+/// the accessor macros that take a context (`t!`, `tu!`, `t_string!`, `tu_string!`, `t_display!`, `tu_display!`), for
+/// every kind of context expression:
+/// 0 bound identifier, 1 `use_i18n()`, 2 inline `scope_i18n!(..)`, 3 inline `use_i18n_scoped!(..)`, 4 struct field,
+/// 5 deref of a reference, 6 block, 7 parenthesised, 8 method call, 9 generic function call
+macro_rules! ctx_arms {
+    ($out:ident, $mac:ident, $e:expr, $i:expr, $c:ident; $k:ident $kn:ident [$($full:tt)+] [$($fulln:tt)+] [$($sc:tt)+] $sk:ident $skn:ident [$($us:tt)+] $uk:ident $ukn:ident) => {{
+        let holder = Holder { i18n: $c };
+        match ($e, $i) {
+            (0, 0) => wrap!($out, $mac!($c, $k)),
+            (0, _) => wrap!($out, $mac!($c, $kn, n = "x")),
+            (1, 0) => wrap!($out, $mac!(use_i18n(), $($full)+)),
+            (1, _) => wrap!($out, $mac!(use_i18n(), $($fulln)+, n = "x")),
+            (2, 0) => wrap!($out, $mac!($($sc)+, $sk)),
+            (2, _) => wrap!($out, $mac!($($sc)+, $skn, n = "x")),
+            (3, 0) => wrap!($out, $mac!($($us)+, $uk)),
+            (3, _) => wrap!($out, $mac!($($us)+, $ukn, n = "x")),
+            (4, 0) => wrap!($out, $mac!(holder.i18n, $k)),
+            (4, _) => wrap!($out, $mac!(holder.i18n, $kn, n = "x")),
+            (5, 0) => {
+                let r: &'static _ = Box::leak(Box::new($c));
+                wrap!($out, $mac!(*r, $k))
+            }
+            (5, _) => {
+                let r: &'static _ = Box::leak(Box::new($c));
+                wrap!($out, $mac!(*r, $kn, n = "x"))
+            }
+            (6, 0) => wrap!($out, $mac!({ $c }, $k)),
+            (6, _) => wrap!($out, $mac!({ $c }, $kn, n = "x")),
+            (7, 0) => wrap!($out, $mac!(($c), $k)),
+            (7, _) => wrap!($out, $mac!(($c), $kn, n = "x")),
+            (8, 0) => wrap!($out, $mac!(holder.get(), $k)),
+            (8, _) => wrap!($out, $mac!(holder.get(), $kn, n = "x")),
+            (9, 0) => wrap!($out, $mac!(idf($c), $k)),
+            (9, _) => wrap!($out, $mac!(idf($c), $kn, n = "x")),
+            _ => None,
+        }
+    }};
+}
+
+/// the accessor macros that take a locale (`td!`, `td_string!`, `td_display!`); the locale expression is
+/// 0 a `Locale` value bound when the accessor is created (frozen by construction), 1 `use_i18n().get_locale()`,
+/// 2 `scope_locale!(ctx.get_locale(), sub)`, 3 `use_i18n().get_locale_untracked()`, 4 `holder.i18n.get_locale()`,
+/// 5 `(*r).get_locale()`, 6 `{ ctx.get_locale() }`, 7 `(ctx.get_locale())`, 8 `ctx.get_locale()`,
+/// 9 `idf(ctx.get_locale_untracked())`
+macro_rules! loc_arms {
+    ($out:ident, $mac:ident, $e:expr, $i:expr, $c:ident; $k:ident $kn:ident [$($full:tt)+] [$($fulln:tt)+] [$($sc:tt)+] $sk:ident $skn:ident [$($us:tt)+] $uk:ident $ukn:ident) => {{
+        let holder = Holder { i18n: $c };
+        match ($e, $i) {
+            (0, 0) => {
+                let l = $c.get_locale_untracked();
+                wrap!($out, $mac!(l, $($full)+))
+            }
+            (0, _) => {
+                let l = $c.get_locale_untracked();
+                wrap!($out, $mac!(l, $($fulln)+, n = "x"))
+            }
+            (1, 0) => wrap!($out, $mac!(use_i18n().get_locale(), $($full)+)),
+            (1, _) => wrap!($out, $mac!(use_i18n().get_locale(), $($fulln)+, n = "x")),
+            (2, 0) => wrap!($out, $mac!(scope_locale!($c.get_locale(), sub), inner)),
+            (2, _) => wrap!($out, $mac!(scope_locale!($c.get_locale(), sub), inner_n, n = "x")),
+            (3, 0) => wrap!($out, $mac!(use_i18n().get_locale_untracked(), $($full)+)),
+            (3, _) => wrap!($out, $mac!(use_i18n().get_locale_untracked(), $($fulln)+, n = "x")),
+            (4, 0) => wrap!($out, $mac!(holder.i18n.get_locale(), $($full)+)),
+            (4, _) => wrap!($out, $mac!(holder.i18n.get_locale(), $($fulln)+, n = "x")),
+            (5, 0) => {
+                let r: &'static _ = Box::leak(Box::new($c));
+                wrap!($out, $mac!((*r).get_locale(), $($full)+))
+            }
+            (5, _) => {
+                let r: &'static _ = Box::leak(Box::new($c));
+                wrap!($out, $mac!((*r).get_locale(), $($fulln)+, n = "x"))
+            }
+            (6, 0) => wrap!($out, $mac!({ $c.get_locale() }, $($full)+)),
+            (6, _) => wrap!($out, $mac!({ $c.get_locale() }, $($fulln)+, n = "x")),
+            (7, 0) => wrap!($out, $mac!(($c.get_locale()), $($full)+)),
+            (7, _) => wrap!($out, $mac!(($c.get_locale()), $($fulln)+, n = "x")),
+            (8, 0) => wrap!($out, $mac!($c.get_locale(), $($full)+)),
+            (8, _) => wrap!($out, $mac!($c.get_locale(), $($fulln)+, n = "x")),
+            (9, 0) => wrap!($out, $mac!(idf($c.get_locale_untracked()), $($full)+)),
+            (9, _) => wrap!($out, $mac!(idf($c.get_locale_untracked()), $($fulln)+, n = "x")),
+            _ => None,
+        }
+    }};
 }
 
 macro_rules! mk_handle {
-    ($id:expr, $ctx:ident, $key:ident, $scope:expr) => {{
+    ($id:expr, $ctx:ident, $scope:expr; $($lv:tt)+) => {{
         let id: usize = $id;
         Handle {
             ctx: id,
@@ -214,22 +327,35 @@ macro_rules! mk_handle {
             set: Box::new(move |l| $ctx.set_locale(l)),
             set_untracked: Box::new(move |l| $ctx.set_locale_untracked(l)),
             scope: Box::new($scope),
-            accessor: Box::new(move || {
-                let view = t!($ctx, $key);
-                (Box::new(move || view().to_html()), Box::new(move || t_string!($ctx, $key).to_string()))
+            accessor: Box::new(move |m: usize, e: usize, i: usize| -> Option<Render> {
+                match m {
+                    0 => ctx_arms!(view, t, e, i, $ctx; $($lv)+),
+                    1 => ctx_arms!(view, tu, e, i, $ctx; $($lv)+),
+                    2 => ctx_arms!(string, t_string, e, i, $ctx; $($lv)+),
+                    3 => ctx_arms!(string, tu_string, e, i, $ctx; $($lv)+),
+                    4 => ctx_arms!(string, t_display, e, i, $ctx; $($lv)+),
+                    5 => ctx_arms!(string, tu_display, e, i, $ctx; $($lv)+),
+                    6 => loc_arms!(view, td, e, i, $ctx; $($lv)+),
+                    7 => loc_arms!(string, td_string, e, i, $ctx; $($lv)+),
+                    8 => loc_arms!(string, td_display, e, i, $ctx; $($lv)+),
+                    _ => None,
+                }
             }),
         }
     }};
 }
 
 fn root_handle(id: usize, ctx: I18nContext<Locale>) -> Handle {
-    mk_handle!(id, ctx, hello, move |id| {
+    mk_handle!(id, ctx, move |id| {
         let c1 = scope_i18n!(ctx, sub);
-        Some(mk_handle!(id, c1, inner, move |id| {
+        Some(mk_handle!(id, c1, move |id| {
             let c2 = scope_i18n!(c1, deep);
-            Some(mk_handle!(id, c2, leaf, move |_| None))
-        }))
-    })
+            Some(mk_handle!(id, c2, move |_| None;
+                leaf leaf_n [sub.deep.leaf] [sub.deep.leaf_n] [scope_i18n!(use_i18n(), sub.deep)] leaf leaf_n [use_i18n_scoped!(sub.deep)] leaf leaf_n))
+        };
+            inner inner_n [sub.inner] [sub.inner_n] [scope_i18n!(c1, deep)] leaf leaf_n [use_i18n_scoped!(sub)] inner inner_n))
+    };
+        hello hello_n [hello] [hello_n] [scope_i18n!(ctx, sub)] inner inner_n [use_i18n_scoped!(sub)] inner inner_n)
 }
 
 fn locale_of_text(s: &str) -> String {
@@ -239,23 +365,72 @@ fn locale_of_text(s: &str) -> String {
     }
 }
 
+/// flavour number = macro * 32 + expression kind * 2 + (1 when interpolation arguments are given)
+fn flavour(n: &str) -> (usize, usize, usize) {
+    let n: usize = n.parse().unwrap();
+    (n / 32, (n % 32) / 2, n % 2)
+}
+
+struct Watcher {
+    cell: Arc<Mutex<String>>,
+    _eff: RenderEffect<()>,
+}
+
+enum Frozen {
+    Acc(usize, Render, Render),
+    Watch(Watcher),
+}
+
 struct World {
     owners: Vec<Owner>,
     logs: Vec<Log>,
     handles: Vec<Handle>,
-    accessors: Vec<(Box<dyn Fn() -> String>, Box<dyn Fn() -> String>)>,
-    watchers: Vec<(Arc<Mutex<String>>, RenderEffect<()>)>,
+    /// (context, accessor a, accessor b)
+    accessors: Vec<(usize, Render, Render)>,
+    watchers: Vec<Watcher>,
+    /// observers the model expects never to change: accessors over a `Locale` value bound at creation, effects that
+    /// only read untracked
+    frozen: Vec<Frozen>,
     signals: Vec<RwSignal<Locale>>,
 }
 
 impl World {
-    /// `h<locales of all handles (untracked get, tracked get)>/a<accessors (view,string)>/w<watchers>/c<per context Set-Cookie log>`
+    /// `h<locales of all handles (untracked get, tracked get)>/a<accessor pairs>/w<watchers>/c<per context Set-Cookie log>/z<frozen observers>`
+    /// every accessor is rendered under the owner of its context (where `use_i18n()` finds that context)
     fn snapshot(&self) -> String {
         let h: Vec<String> = self.handles.iter().map(|h| format!("{}{}", idx((h.get)()), idx((h.get_tracked)()))).collect();
-        let a: Vec<String> = self.accessors.iter().map(|(v, s)| format!("{}{}", locale_of_text(&v()), locale_of_text(&s()))).collect();
-        let w: Vec<String> = self.watchers.iter().map(|(c, _)| locale_of_text(&c.lock().unwrap())).collect();
+        let pair = |c: &usize, a: &Render, b: &Render| self.owners[*c].with(|| format!("{}{}", locale_of_text(&a()), locale_of_text(&b())));
+        let a: Vec<String> = self.accessors.iter().map(|(c, a, b)| pair(c, a, b)).collect();
+        let w: Vec<String> = self.watchers.iter().map(|w| locale_of_text(&w.cell.lock().unwrap())).collect();
         let c: Vec<String> = self.logs.iter().map(|l| l.lock().unwrap().iter().map(|x| x.rsplit_once('=').map(|p| p.1.to_string()).unwrap_or_default()).collect::<Vec<_>>().join("+")).collect();
-        format!("h{}/a{}/w{}/c{}", h.join("."), a.join("."), w.join("."), c.join("."))
+        let z: Vec<String> = self
+            .frozen
+            .iter()
+            .map(|f| match f {
+                Frozen::Acc(c, a, b) => pair(c, a, b),
+                Frozen::Watch(w) => {
+                    let d = locale_of_text(&w.cell.lock().unwrap());
+                    format!("{}{}", d, d)
+                }
+            })
+            .collect();
+        format!("h{}/a{}/w{}/c{}/z{}", h.join("."), a.join("."), w.join("."), c.join("."), z.join("."))
+    }
+
+    /// one accessor of handle `h`, created under the owner of its context
+    fn make(&self, h: usize, fl: &str) -> Render {
+        let hd = &self.handles[h];
+        let (m, e, i) = flavour(fl);
+        self.owners[hd.ctx].with(|| (hd.accessor)(m, e, i)).expect("unknown flavour")
+    }
+
+    /// a render effect showing one accessor of handle `h` (created before and outside the effect, rendered inside)
+    fn mount(&self, h: usize, fl: &str) -> Watcher {
+        let s = self.make(h, fl);
+        let cell: Arc<Mutex<String>> = Default::default();
+        let c2 = cell.clone();
+        let eff = self.owners[self.handles[h].ctx].with(|| RenderEffect::new(move |_| *c2.lock().unwrap() = s()));
+        Watcher { cell, _eff: eff }
     }
 }
 
@@ -263,14 +438,17 @@ impl World {
 ///   `N<parent ctx>,<signal idx|->,<cookie name hex|->`  new sub-context below context `parent` (provided to its own child owner)
 ///   `I<l>` new initial-locale signal   `W<s>,<l>` write signal s
 ///   `S<h>,<l>` set_locale   `U<h>,<l>` set_locale_untracked   `C<h>` scope handle h (new handle)
-///   `A<h>` create accessors on handle h   `M<h>` mount a render effect showing t_string! of handle h
+///   `A<h>,<fa>,<fb>` create two accessors on handle h (flavours fa, fb: see `flavour`, `ctx_arms`, `loc_arms`)
+///   `Z<h>,<fa>,<fb>` the same, listed with the frozen observers
+///   `M<h>,<f>` mount a render effect showing an accessor of flavour f of handle h   `Y<h>,<f>` the same, listed with the
+///   frozen observers
 ///   `G` no-op (just observe)   `F` flush (executor ticks until quiescent)
 /// output: `snapshot` after context creation and after every op, joined by `;`
 async fn run16(f: &[&str]) -> String {
     let enable = f[0] == "1";
     let (cookie, accept) = (unhex(f[1]), unhex(f[2]));
     let owner = Owner::current().unwrap();
-    let mut w = World { owners: vec![], logs: vec![], handles: vec![], accessors: vec![], watchers: vec![], signals: vec![] };
+    let mut w = World { owners: vec![], logs: vec![], handles: vec![], accessors: vec![], watchers: vec![], frozen: vec![], signals: vec![] };
     let mut out: Vec<String> = vec![];
     let log: Log = Default::default();
     let r = catch_unwind(AssertUnwindSafe(|| {
@@ -294,58 +472,68 @@ async fn run16(f: &[&str]) -> String {
             out.push(if s1 == s2 { s1 } else { format!("UNSTABLE {} -> {}", s1, s2) });
             continue;
         }
-        let r = catch_unwind(AssertUnwindSafe(|| match k {
-            "N" => {
-                let p: usize = a[0].parse().unwrap();
-                let sig = opt_idx(a[1]).map(|s| w.signals[s]);
-                let name = unhex(a[2]);
-                let log: Log = Default::default();
-                let child = w.owners[p].child();
-                let sub = child.with(|| {
-                    let s = init_i18n_subcontext_with_options::<Locale>(
-                        sig.map(|s| s.into()),
-                        name.map(Cow::Owned),
-                        Some(cookie_opts(cookie.clone(), log.clone())),
-                        Some(lang_opts(accept.clone())),
-                    );
-                    provide_context(s);
-                    s
-                });
-                let id = w.owners.len();
-                w.owners.push(child);
-                w.logs.push(log);
-                w.handles.push(root_handle(id, sub));
-            }
-            "I" => w.signals.push(RwSignal::new(loc(a[0].parse().unwrap()))),
-            "W" => w.signals[a[0].parse::<usize>().unwrap()].set(loc(a[1].parse().unwrap())),
-            "S" => (w.handles[a[0].parse::<usize>().unwrap()].set)(loc(a[1].parse().unwrap())),
-            "U" => (w.handles[a[0].parse::<usize>().unwrap()].set_untracked)(loc(a[1].parse().unwrap())),
-            "C" => {
-                let h = &w.handles[a[0].parse::<usize>().unwrap()];
-                if let Some(n) = (h.scope)(h.ctx) {
-                    w.handles.push(n);
+        let r = catch_unwind(AssertUnwindSafe(|| {
+            match k {
+                "N" => {
+                    let p: usize = a[0].parse().unwrap();
+                    let sig = opt_idx(a[1]).map(|s| w.signals[s]);
+                    let name = unhex(a[2]);
+                    let log: Log = Default::default();
+                    let child = w.owners[p].child();
+                    let sub = child.with(|| {
+                        let s = init_i18n_subcontext_with_options::<Locale>(
+                            sig.map(|s| s.into()),
+                            name.map(Cow::Owned),
+                            Some(cookie_opts(cookie.clone(), log.clone())),
+                            Some(lang_opts(accept.clone())),
+                        );
+                        provide_context(s);
+                        s
+                    });
+                    let id = w.owners.len();
+                    w.owners.push(child);
+                    w.logs.push(log);
+                    w.handles.push(root_handle(id, sub));
                 }
+                "I" => w.signals.push(RwSignal::new(loc(a[0].parse().unwrap()))),
+                "W" => w.signals[a[0].parse::<usize>().unwrap()].set(loc(a[1].parse().unwrap())),
+                "S" => (w.handles[a[0].parse::<usize>().unwrap()].set)(loc(a[1].parse().unwrap())),
+                "U" => (w.handles[a[0].parse::<usize>().unwrap()].set_untracked)(loc(a[1].parse().unwrap())),
+                "C" => {
+                    let h = &w.handles[a[0].parse::<usize>().unwrap()];
+                    if let Some(n) = (h.scope)(h.ctx) {
+                        w.handles.push(n);
+                    }
+                }
+                "A" | "Z" => {
+                    let h: usize = a[0].parse().unwrap();
+                    let (x, y) = (w.make(h, a[1]), w.make(h, a[2]));
+                    let c = w.handles[h].ctx;
+                    if k == "A" {
+                        w.accessors.push((c, x, y));
+                    } else {
+                        w.frozen.push(Frozen::Acc(c, x, y));
+                    }
+                }
+                "M" | "Y" => {
+                    let m = w.mount(a[0].parse().unwrap(), a[1]);
+                    if k == "M" {
+                        w.watchers.push(m);
+                    } else {
+                        w.frozen.push(Frozen::Watch(m));
+                    }
+                }
+                _ => {}
             }
-            "A" => {
-                let acc = (w.handles[a[0].parse::<usize>().unwrap()].accessor)();
-                w.accessors.push(acc);
-            }
-            "M" => {
-                let h = &w.handles[a[0].parse::<usize>().unwrap()];
-                let (_, s) = (h.accessor)();
-                let cell: Arc<Mutex<String>> = Default::default();
-                let c2 = cell.clone();
-                let own = w.owners[h.ctx].clone();
-                let eff = own.with(|| RenderEffect::new(move |_| *c2.lock().unwrap() = s()));
-                w.watchers.push((cell, eff));
-            }
-            _ => {}
+            w.snapshot()
         }));
-        if r.is_err() {
-            out.push("PANIC".into());
-            break;
+        match r {
+            Ok(s) => out.push(s),
+            Err(_) => {
+                out.push("PANIC".into());
+                break;
+            }
         }
-        out.push(w.snapshot());
     }
     out.join(";")
 }
